@@ -178,7 +178,7 @@ def render_param(p):
     raise ValueError(n)
 
 
-NO_BARE = {"as_type", "repeat", "skip_repeat", "stop_repeat", "allow_unknown"}  # only via #[o2o(..)] (o2o-macros attributes list)
+NO_BARE = {"as_type", "repeat", "skip_repeat", "stop_repeat", "allow_unknown", "ghost_owned", "ghost_ref", "ghosts_owned", "ghosts_ref"}  # only via #[o2o(..)] (o2o-macros attributes list)
 
 
 def render_attrs(instrs, indent=""):
